@@ -249,12 +249,18 @@ func handleSINTERSTORE(params internal.HandlerFuncParams) ([]byte, error) {
 	}
 
 	keyExists := params.KeysExist(params.Context, keys.ReadKeys)
+	destination := keys.WriteKeys[0]
 
 	var sets []*Set
 
 	for key, exists := range keyExists {
 		if !exists {
-			return []byte(":0\r\n"), err
+			// A missing key is an empty set, so the intersection is empty:
+			// the destination is replaced with the empty result.
+			if err = params.SetValues(params.Context, map[string]interface{}{destination: NewSet([]string{})}); err != nil {
+				return nil, err
+			}
+			return []byte(":0\r\n"), nil
 		}
 		set, ok := params.GetValues(params.Context, []string{key})[key].(*Set)
 		if !ok {
@@ -265,7 +271,6 @@ func handleSINTERSTORE(params internal.HandlerFuncParams) ([]byte, error) {
 	}
 
 	intersect, _ := Intersection(0, sets...)
-	destination := keys.WriteKeys[0]
 
 	if err = params.SetValues(params.Context, map[string]interface{}{destination: intersect}); err != nil {
 		return nil, err
